@@ -387,6 +387,13 @@ impl PendingOutboundPayment {
 				if let Some(max_total_routing_fee_msat) = remaining_max_total_routing_fee_msat.as_mut() {
 					*max_total_routing_fee_msat = max_total_routing_fee_msat.saturating_add(path_fee_msat);
 				}
+			} else if let PendingOutboundPayment::Abandoned { ref mut pending_fee_msat, .. } = self {
+				// The fee preserved from `Retryable` must only cover parts still in flight, so a part
+				// failing after the payment was abandoned no longer counts towards `fee_paid_msat` of
+				// a later `PaymentSent`.
+				if let (Some(fee_msat), Some(path)) = (pending_fee_msat.as_mut(), path) {
+					*fee_msat = fee_msat.saturating_sub(path.fee_msat());
+				}
 			}
 		}
 		remove_res
